@@ -14,7 +14,7 @@ class Violation:
 
     def to_json(self, pid, seed, repo_hash):
         c = self.case.describe() if isinstance(self.case, Case) else self.case
-        return {'property': pid, 'kind': self.kind, 'what': self.what, 'obligation_or_correspondence': self.name,
+        return {'property': pid, 'kind': self.kind, 'what': self.what, 'obligation_or_correspondence': self.name, 'tier': getattr(self, 'tier', None),
                 'case': c, 'expected': self.expected, 'obtained': self.obtained, 'detail': self.detail,
                 'seed': seed, 'repo_hash': repo_hash}
 
@@ -291,6 +291,7 @@ class BaseProp:
         return rc
 
     def write_replay(self, v):
+        v.tier = self.tier
         j = v.to_json(self.pid, self.seed, getattr(self, 'repo_hash', ''))
         h = hashlib.sha256(json.dumps(j, sort_keys=True, default=str).encode()).hexdigest()[:10]
         path = '%s/replays/%s-%s.json' % (vlib.ROOT, self.pid, h)
@@ -342,8 +343,15 @@ class BaseProp:
     def replay(self, path):
         j = json.load(open(path))
         c = j.get('case')
-        if not c or 'type' not in c:
-            print('replay %s names %s; re-running the whole check' % (path, j.get('obligation_or_correspondence')))
+        if not c or 'type' not in c or 'operands' not in c or getattr(self, 'replay_whole', False):
+            # obligations, correspondences and violations that involve several evaluations (pairs, histories, matrices, drivers) are replayed by
+            # re-running the check with the recorded seed and tier: the generators are deterministic, so the same inputs are produced again
+            print('replay %s (%s): re-running the whole check with seed %s' % (path, j.get('obligation_or_correspondence') or j.get('what', '')[:80], j.get('seed')))
+            if j.get('seed') is not None:
+                self.seed = j['seed']
+                self.rng = Rng(self.seed).fork(self.pid)
+            if j.get('tier') in ('quick', 'thorough'):
+                self.tier = j['tier']
             return self.run()
         vlib.ensure_gen()
         ty = vlib.types()[c['type']]
